@@ -52,6 +52,8 @@ func mkElement(kind int, sym bool, slot int) BulkElement {
 			Postings: ledger.Postings{{Source: "a", Destination: "c", Asset: "USD/2", Amount: symAmount(sym, "el.spend", "60")}}}}
 	case 7: // delete account metadata, succeeds
 		return BulkElement{Action: ActionDeleteMetadata, Data: DeleteMetadataRequest{TargetType: ledger.MetaTargetTypeAccount, TargetID: json.RawMessage(`"b"`), Key: "role"}}
+	case 8: // delete transaction metadata, succeeds
+		return BulkElement{Action: ActionDeleteMetadata, Data: DeleteMetadataRequest{TargetType: ledger.MetaTargetTypeTransaction, TargetID: json.RawMessage(`1`), Key: "k"}}
 	}
 	panic("no such element kind")
 }
@@ -103,6 +105,15 @@ func standalone(ctrl ledgercontroller.Controller, el BulkElement) refResult {
 		return refResult{applied: true, logID: *log.ID, tx: &out.RevertTransaction}
 	case ActionDeleteMetadata:
 		req := el.Data.(DeleteMetadataRequest)
+		if req.TargetType == ledger.MetaTargetTypeTransaction {
+			var id uint64
+			_ = json.Unmarshal(req.TargetID, &id)
+			log, _, err := ctrl.DeleteTransactionMetadata(bg, ledgercontroller.Parameters[ledgercontroller.DeleteTransactionMetadata]{IdempotencyKey: el.IdempotencyKey, Input: ledgercontroller.DeleteTransactionMetadata{TransactionID: id, Key: req.Key}})
+			if err != nil {
+				return refResult{failed: true}
+			}
+			return refResult{applied: true, logID: *log.ID}
+		}
 		var addr string
 		_ = json.Unmarshal(req.TargetID, &addr)
 		log, _, err := ctrl.DeleteAccountMetadata(bg, ledgercontroller.Parameters[ledgercontroller.DeleteAccountMetadata]{IdempotencyKey: el.IdempotencyKey, Input: ledgercontroller.DeleteAccountMetadata{Address: addr, Key: req.Key}})
@@ -219,8 +230,8 @@ func checkBulkN(sym bool, n int, kindsPool []int, atomic, continueOnFailure bool
 	checkBulk(sym, kinds, atomic, continueOnFailure)
 }
 
-var poolAll = []int{0, 1, 2, 3, 4, 5, 6, 7}
-var poolSmall = []int{0, 1, 3, 5, 6}
+var poolAll = []int{0, 1, 2, 3, 4, 5, 6, 7, 8}
+var poolSmall = []int{0, 1, 3, 5, 6, 8}
 
 func Harness_BULK_n1()                 { checkBulkN(false, 1, poolAll, false, false) }
 func Harness_BULK_n1_atomic()          { checkBulkN(false, 1, poolAll, true, false) }
